@@ -164,8 +164,11 @@ ClientValidates ==
 ClientMkdir ==
   /\ role = "client" /\ phase = "validated"
   /\ IF accepted
-     THEN created' = {WhereCreated} /\ result' = "ok"
-     ELSE created' = {} /\ result' = "fail"
+     THEN /\ created' = IF "SuccessWithoutMkdir" \in Bug THEN {}
+                        ELSE IF "MkdirParents" \in Bug THEN {WhereCreated, [at |-> "base", leaf |-> "O"]}
+                        ELSE {WhereCreated}
+          /\ result' = "ok"
+     ELSE created' = {} /\ result' = IF "SuccessOnInvalid" \in Bug THEN "ok" ELSE "fail"
   /\ phase' = "made"
   /\ UNCHANGED <<role, abs, path, huge, fam, fault, accepted, ret, svars>>
 
